@@ -228,6 +228,26 @@ def recover (cfg : Cfg) (cmpName : Bytes) (f : StrictFlags) (img : Image) :
           | .error e => .error e
           | .ok tes => .ok ⟨s, nums, tes, js.puts, js.seq⟩
 
+/-- `leveldb.Recover` on an image (`recoverTable` + `openDB`): the manifest and `CURRENT` are ignored; every
+    table file, in file-number order, goes to level 0 with the entries that can still be read (an unreadable
+    table or one without a readable entry is dropped); `seqNum` is the largest sequence number seen in them;
+    the fresh manifest has journal number 0, so every journal file is replayed, in file-number order, by the
+    same `recoverJournal` as in `recover`.  The image-level counterpart of `Dur.rebuild` (C19). -/
+def rebuildImage (f : StrictFlags) (img : Image) : Except ErrClass RecoveredState :=
+  let tnums := sortNums (img.tables.map (·.1))
+  let tabs : List (Nat × List Entry) := tnums.filterMap fun n =>
+    match lookup img.tables n with
+    | some (some es) => if es.isEmpty then none else some (n, es)
+    | _ => none
+  let tes := tabs.flatMap (·.2)
+  let mseq := tes.foldl (fun m e => max m e.seq) 0
+  let nums := sortNums (img.journals.map (·.1))
+  let files := nums.filterMap (lookup img.journals)
+  match journalFiles f ⟨mseq, []⟩ files with
+  | .error e => .error e
+  | .ok js =>
+    .ok ⟨⟨tabs.map fun t => ⟨0, t.1, 0, [], []⟩, 0, 0, 0, mseq⟩, nums, tes, js.puts, js.seq⟩
+
 /-! ## logical contents -/
 
 /-- insert a user key into a `c`-sorted duplicate-free list -/
